@@ -9,7 +9,7 @@ CONSTANTS
   NbVals = {}
   Starts = {}
   Hows = {"default", "spawn"}
-  POps = {"import", "set", "kernel", "checkmp", "launch"}
+  POps = {"import", "set", "kernel", "launch"}
   COps = {"import", "kernel"}
   NW = 0
   MaxDepth = 4
@@ -30,6 +30,7 @@ PROPERTY StopSticky
 PROPERTY DoneIsFinal
 PROPERTY RaiseStops
 PROPERTY FlagPerProcess
+PROPERTY PbpOneThread
 ACTION_CONSTRAINT EmitTransition
 VIEW View
 CHECK_DEADLOCK FALSE
